@@ -24,6 +24,70 @@ type fieldSpec struct {
 	K string `json:"k"` // kind symbol (see kinds)
 	T string `json:"t"` // tag form symbol: "", nm, dash, oe, nmoe, str, dashc
 	V string `json:"v"` // value variant: z (zero / nil), n (non-zero, non-nil), e (empty but not nil / alternative)
+	// C: container / pointer levels in front of the kind K, outermost first: m = map[string], s = [], p = *, a = [2]
+	// (enumerated by TLC: EncodeGen DeepPre); <<m, s, p>> in front of S is map[string][]*S1
+	C []string `json:"c,omitempty"`
+}
+
+// composeType puts the container levels of f.C in front of the base type.
+func composeType(base reflect.Type, c []string) reflect.Type {
+	t := base
+	for i := len(c) - 1; i >= 0; i-- {
+		switch c[i] {
+		case "m":
+			t = reflect.MapOf(reflect.TypeOf(""), t)
+		case "s":
+			t = reflect.SliceOf(t)
+		case "p":
+			t = reflect.PtrTo(t)
+		case "a":
+			t = reflect.ArrayOf(2, t)
+		}
+	}
+	return t
+}
+
+// composeValue: z = zero value; n = every level holds one populated child (arrays: child and a zero element);
+// e = populated down to the DEEPEST container level, which is empty but not nil (pointer: to a zero value).
+func composeValue(base kindDef, c []string, v string) reflect.Value {
+	t := composeType(base.typ, c)
+	rv := reflect.New(t).Elem()
+	if v == "z" {
+		return rv
+	}
+	if len(c) == 0 {
+		if x := base.val("n"); x != nil {
+			rv.Set(reflect.ValueOf(x))
+		}
+		return rv
+	}
+	deepest := len(c) == 1
+	var child reflect.Value
+	if !(deepest && v == "e") {
+		child = composeValue(base, c[1:], v)
+	}
+	switch c[0] {
+	case "m":
+		rv.Set(reflect.MakeMap(t))
+		if child.IsValid() {
+			rv.SetMapIndex(reflect.ValueOf("k"), child)
+		}
+	case "s":
+		rv.Set(reflect.MakeSlice(t, 0, 1))
+		if child.IsValid() {
+			rv.Set(reflect.Append(rv, child))
+		}
+	case "p":
+		rv.Set(reflect.New(t.Elem()))
+		if child.IsValid() {
+			rv.Elem().Set(child)
+		}
+	case "a":
+		if child.IsValid() {
+			rv.Index(0).Set(child)
+		}
+	}
+	return rv
 }
 
 type optSpec struct {
@@ -185,6 +249,13 @@ var kinds = map[string]kindDef{
 	"Base": {typ: reflect.TypeOf(enctypes.Base{}), emb: true, val: func(v string) any {
 		return pick(v, enctypes.Base{}, enctypes.Base{Stamp: enctypes.Stamp{Created: 3, Updated: 4}, ID: 7}, enctypes.Base{ID: 7})
 	}},
+	"B1": {typ: reflect.TypeOf(enctypes.B1{}), emb: true, val: func(v string) any {
+		return pick(v, enctypes.B1{}, enctypes.B1{D0: enctypes.D0{K: 1}, Bx: 2}, enctypes.B1{Bx: 2})
+	}},
+	"C1": {typ: reflect.TypeOf(enctypes.C1{}), emb: true, val: func(v string) any {
+		return pick(v, enctypes.C1{}, enctypes.C1{D0: enctypes.D0{K: 3}, Cx: 4}, enctypes.C1{D0: enctypes.D0{K: 3}})
+	}},
+	"D0": {typ: reflect.TypeOf(enctypes.D0{}), emb: true, val: func(v string) any { return pick(v, enctypes.D0{}, enctypes.D0{K: 5}, enctypes.D0{K: 5}) }},
 	"Stamp": {typ: reflect.TypeOf(enctypes.Stamp{}), emb: true, val: func(v string) any {
 		return pick(v, enctypes.Stamp{}, enctypes.Stamp{Created: 1, Updated: 2}, enctypes.Stamp{Updated: 2})
 	}},
@@ -514,12 +585,14 @@ func buildValue(c *caseSpec) (rv reflect.Value, err error) {
 		if !ok {
 			return rv, fmt.Errorf("unknown kind %q", f.K)
 		}
-		sf[i] = reflect.StructField{Name: f.N, Type: kd.typ, Tag: reflect.StructTag(tagString(f)), Anonymous: kd.emb}
+		sf[i] = reflect.StructField{Name: f.N, Type: composeType(kd.typ, f.C), Tag: reflect.StructTag(tagString(f)), Anonymous: kd.emb && len(f.C) == 0}
 	}
 	st := reflect.StructOf(sf)
 	rv = reflect.New(st).Elem()
 	for i, f := range c.F {
-		if x := kinds[f.K].val(f.V); x != nil {
+		if len(f.C) > 0 {
+			rv.Field(i).Set(composeValue(kinds[f.K], f.C, f.V))
+		} else if x := kinds[f.K].val(f.V); x != nil {
 			rv.Field(i).Set(reflect.ValueOf(x))
 		}
 	}
